@@ -27,7 +27,7 @@ ASSUMPTIONS = [
     "ErrBufferFull cannot occur); the oracle is independent of buffer size and fragmentation, goexec varies both",
     "the oracle contract is PROVED of a transcription of bufio.Reader (Model/Bufio.v: fill, readErr, ReadByte, UnreadByte, "
     "Peek of Go 1.23) for every buffer size and every read script without (0, nil) reads (C16_sync_over_bufio); that "
-    "transcription is compared with the real bufio.Reader on every run (io.syncb), also on scripts with zero-length reads",
+    "transcription (incl. Read + io.ReadFull for the bytes read after Sync) is compared with the real bufio.Reader on every run (io.syncb), also on scripts with zero-length reads",
     "underlying io.Reader: finite script, sticky error, never more than len(p) bytes per Read (as in C18)",
     "int64 offset does not overflow (streams shorter than 2^63 bytes)",
     "theorems quantify over all lists of bytes (< 256) and all terminal errors",
